@@ -7,6 +7,7 @@ import (
 	"strings"
 	"unicode/utf8"
 
+	ngxcfg "github.com/nginx/nginx-gateway-fabric/internal/mode/static/nginx/config"
 	ngxvalidation "github.com/nginx/nginx-gateway-fabric/internal/mode/static/nginx/config/validation"
 	"github.com/nginx/nginx-gateway-fabric/internal/mode/static/state/graph"
 	"github.com/nginx/nginx-gateway-fabric/verifharness/rng"
@@ -116,5 +117,52 @@ func validatorsImpl(w *bufio.Writer, seed uint64, n int) {
 			}
 			fmt.Fprintf(w, "V\t%s\t%s\t%d\n", name, Esc(s), acc)
 		}
+	}
+	// composite arguments built in Go (servers.go): "C <query fields> = <result>"
+	paths := []string{"/", "/coffee", "/coffee/", "/a b", "/x\\", "/" + Marker + ";x", "", "/é"}
+	repls := []string{"", "/", "/beans", "/beans/", "/x\\", "/$1", "/a b;", "/" + Marker + "\"", "x"}
+	opt := func(s *string) string {
+		if s == nil {
+			return "~"
+		}
+		return Esc(*s)
+	}
+	for i := 0; i < 40+n/20; i++ {
+		path, repl := rng.Pick(r, paths), rng.Pick(r, repls)
+		if r.Chance(1, 3) {
+			path = "/" + randString(r)
+		}
+		if r.Chance(1, 3) {
+			repl = randString(r)
+		}
+		if !utf8.ValidString(path) || !utf8.ValidString(repl) {
+			continue
+		}
+		typ := rng.Pick(r, []string{"ReplaceFullPath", "ReplacePrefixMatch"})
+		fmt.Fprintf(w, "C\tcompose:mainRewrite\t%s\t%s\t%s\t\\=\t%s\n", typ, Esc(repl), Esc(path), Esc(ngxcfg.VerifC04MainRewrite(typ, repl, path)))
+		fmt.Fprintf(w, "C\tcompose:rewriteFilter\t%s\t%s\t%s\t\\=\t%s\n", typ, Esc(repl), Esc(path), Esc(ngxcfg.VerifC04RewriteFilter(typ, repl, path)))
+		var scheme, host *string
+		var port *int32
+		if r.Chance(2, 3) {
+			scheme = ptr(rng.Pick(r, []string{"http", "https", "ftp", "HTTP", Marker + "\";"}))
+		}
+		if r.Chance(2, 3) {
+			host = ptr(rng.Pick(r, []string{"example.com", "a b", Marker + "\\\"", "$host", ""}))
+		}
+		if r.Chance(1, 2) {
+			port = ptr(rng.Pick(r, []int32{80, 443, 8080, 0, 65535}))
+		}
+		lport := rng.Pick(r, []int32{80, 443, 8443})
+		hasPath := r.Bool()
+		ps := "~"
+		if port != nil {
+			ps = fmt.Sprint(*port)
+		}
+		hp := "0"
+		if hasPath {
+			hp = "1"
+		}
+		fmt.Fprintf(w, "C\tcompose:redirectBody\t%s\t%s\t%s\t%s\t%d\t\\=\t%s\n", opt(scheme), opt(host), ps, hp, lport,
+			Esc(ngxcfg.VerifC04RedirectBody(scheme, host, port, hasPath, lport)))
 	}
 }
